@@ -62,6 +62,17 @@ static void sweep_msf(const V &a, V &r) {
     r.push_back(bad); r.push_back(first);
 }
 
+// every rounding boundary of one M: phases floor((k + 1/2) * 2^32 / M) + {-2..2} for all k in [0, M): the hardest inputs of the modulus switch
+// (the flooring error of the interval width accumulates with k); returns failures, first failing phase
+static void bound_msf(const V &a, V &r) {
+    int32_t M = (int32_t) a[0]; ll bad = 0, first = 0;
+    for (ll k = 0; k < M; k++) {
+        ll c = (ll) ((((__int128) (2 * k + 1)) << 31) / M);
+        for (ll u = c - 2; u <= c + 2; u++) { V q = { (ll) M, (ll) (uint32_t) u, (ll) (uint32_t) u + 1 }, o; sweep_msf(q, o); if (o[0]) { if (!bad) first = (ll) (uint32_t) u; bad++; } }
+    }
+    r.push_back(bad); r.push_back(first);
+}
+
 // ---- C14 / C11: LWE, polynomial and TLWE operations ----
 // arrays handed to the library sit between guard zones so that any access outside [0,n) that
 // writes is seen as a changed sentinel ("OOB" result), whatever the allocator does
@@ -419,6 +430,7 @@ int main(int argc, char **argv) {
         else if (op == "dtotp") { double d = ldexp((double) a[0], -(int) a[1]);
             r.push_back(dtot32(d)); r.push_back(dtot32(d + (double) a[2])); }
         else if (op == "msfsweep") sweep_msf(a, r);
+        else if (op == "msfbound") bound_msf(a, r);
         else if (op == "lwephase") op_lwephase(a, r);
         else if (op == "lwelin") op_lwelin(a, r);
         else if (op == "poly") op_poly(a, r);
